@@ -114,7 +114,8 @@ def report(prop, mod, tier, seed, obs, results, known, t0, write=True):
                 printed_kf.add(kf["id"])
                 lines.append(f"KNOWN-FINDING: property={prop} {kf['id']} {kf['what']}")
         if st == "discharged":
-            lines.append(f"OK {name} [{r['kind']}{'/' + r['bound'] if r.get('bound') else ''}] paths={stats.get('paths', '-')} queries={stats.get('queries', '-')} solver={stats.get('solver_s', 0):.2f}s")
+            lines.append(f"OK {name} [{r['kind']}{'/' + r['bound'] if r.get('bound') else ''}] paths={stats.get('paths', '-')} queries={stats.get('queries', '-')} solver={stats.get('solver_s', 0):.2f}s"
+                         + (f" PARTIAL (held on every path explored; {r['partial']})" if r.get("partial") else ""))
         elif st == "violated":
             for v in r["violations"]:
                 n_viol += 1
@@ -195,7 +196,8 @@ def write_evidence(prop, mod, tier, seed, obs, results, known, wall, n_viol):
         "unbounded_or_path_complete": [{"obligation": r["obligation"], "status": r["status"], "paths": r.get("stats", {}).get("paths"),
                                           "solver_s": round(r.get("stats", {}).get("solver_s", 0.0), 3)} for r in proofish],
         "bounded": [{"obligation": r["obligation"], "bound": r.get("bound"), "status": r["status"], "paths": r.get("stats", {}).get("paths"),
-                     "queries": r.get("stats", {}).get("queries"), "exhaustive_within_bound": r["status"] == "discharged" and not r.get("stats", {}).get("budget_hit")}
+                     "queries": r.get("stats", {}).get("queries"), "exhaustive_within_bound": r["status"] == "discharged" and not r.get("stats", {}).get("budget_hit"),
+                     **({"budget_exhausted": r["partial"]} if r.get("partial") else {})}
                     for r in bounded],
         "backends": backends,
         "solver_s": round(sum(r.get("stats", {}).get("solver_s", 0.0) for r in results), 3),
